@@ -167,6 +167,9 @@ type attr struct {
 	ambiguousValue bool
 	// dynamic indicates whether an action has already contributed to the attribute value.
 	dynamic bool
+	// dynamicStart indicates whether an action occurred at the very start of the attribute
+	// value, i.e. whether the attribute value starts with text that is not known statically.
+	dynamicStart bool
 	// names contains all possible names the attribute could assume because of context joining.
 	// For example, after joining the contexts in the "if" and "else" branches of
 	//     <a {{if .C}}title{{else}}name{{end}}="foo">
